@@ -1,0 +1,15 @@
+// SPDX-FileCopyrightText: 2020 - 2025 SAP SE
+//
+// SPDX-License-Identifier: Apache-2.0
+
+//go:build verif
+
+// Contracts for the verification machinery under /verif (comment-only file;
+// compiled only with -tags verif and contains no code).
+
+package asetypes
+
+//@ # GoValue: the server chooses the length of bs, so there is no length
+//@ # precondition; it only touches memory it allocates itself.
+//@ func (DataType).GoValue returns (v, err)
+//@   modifies
